@@ -26,6 +26,7 @@ func init() {
 }
 
 func runC09(w *World, r *Report) {
+	ruleNodeFresh(w, r)
 	ruleOrder(w, r)
 	kc, kn := ruleCheckConstants(w, r)
 	ruleCheckAll(w, r)
